@@ -125,6 +125,11 @@ def _registration(chk, ex, b, F_reg):
     for path, pnames, qnames in [('/a/{x}', ['x'], []), ('/a/{x}', [], []), ('/a/{x}', ['x', 'y'], []), ('/a/{x}', ['y'], []), ('/a/{x}/{y}', ['y', 'x'], []),
                                  ('/a', [], ['q']), ('/a/{x}', ['x'], ['x']), ('/a/{x}', ['x'], ['q']), ('/a', ['x'], [])]:
         cases.append((path, [('Path', n, string_schema) for n in pnames] + [('Query', n, string_schema) for n in qnames]))
+    arr_shape = next(sh for sh in shapes if sh[0] == 'array-of-string')
+    # a query parameter named like the trailing wildcard variable (and a control with another name)
+    cases.append(('/a/{r:.*}', [('Path', 'r', arr_shape), ('Query', 'r', string_schema)]))
+    cases.append(('/a/{r:.*}', [('Path', 'r', arr_shape), ('Query', 'q', string_schema)]))
+    cases.append(('/a/{x}/{r:.*}', [('Path', 'x', string_schema), ('Path', 'r', arr_shape), ('Query', 'x', string_schema)]))
     for sh in shapes:
         cases.append(('/a/{x}', [('Path', 'x', sh)]))
         cases.append(('/a', [('Query', 'q', sh)]))
